@@ -11,7 +11,8 @@ LEVEL_TEXT = ("proof + fault enumeration: Coq theorems over the disk-level model
               "old or the new one — *partial* for deliveries that first evict for the mailbox cap (open finding "
               "K-C11-evict-then-append: pre, pre minus evicted messages, or post). The model is tied to the code by "
               "enumerating every crash point of sampled scenarios on the real store (panic at the k-th verifhook point, "
-              "truncation of the file being written at every length <= 512) and comparing site sequence and recovered state.")
+              "truncation of the file being written at every length <= 512) and comparing site sequence and recovered state. Also proved and "
+              "sampled: VisitMailboxes returns no error while another operation runs, for every schedule (fix 0012).")
 LEVEL_NOTE = ("The theorems are about Model/FileDisk.v, a hand-written model of pkg/storage/file (fstore.go, mbox.go, fmessage.go); "
               "encoding/gob is a section variable with the round-trip hypothesis only; the file system is modelled as a path map "
               "with atomic create/rename/unlink/rmdir (POSIX), a process kill (no power loss: written data survives without fsync); "
@@ -23,7 +24,12 @@ RULE = ("plan: fixed scenarios (add to empty / at cap 1,2,3 / seen / remove one 
         "to >32 KiB; crash: one case per (scenario, k) for EVERY k from 0 to the number of mutation points of the operation "
         "(k = number of completed steps), each with the mid-step variants of step k (content write: the file cut at every "
         "length <= 512 and sampled lengths above; RemoveAll: two subsets of the entries; MkdirAll: outer 1 or 2 directories). "
-        "distinct = distinct input line; non-trivial = the operation really died (at != done) resp. the operation has at least one step.")
+        "visit: for every scenario, every yield point k of VisitMailboxes (one before each directory read) and j in {0,1,n/2,n-1,n} "
+        "(thorough: every j): the walk runs on one store object, the operation starts on another one when the walk is at point k, "
+        "completes j file-system steps, and finishes after the walk (forced schedule through verifhook). Histories may change the cap "
+        "(C.<n>) so that one delivery evicts several messages. "
+        "distinct = distinct input line; non-trivial = the operation really died (at != done) resp. the operation has at least one step "
+        "resp. the operation started during the walk.")
 TRUSTED = ["encoding/gob round trip: dec (enc i) = Some i (section hypothesis; nothing is assumed about partial encodings)",
            "POSIX semantics of create/rename/unlink/rmdir as atomic steps; a killed process loses user-space buffers only",
            "runner-side instance of the codec (Model/FileDiskCodec.v, round trip proved) and SHA-1 values passed in by the driver"]
